@@ -1,6 +1,7 @@
 # Copyright 2020 National Technology & Engineering Solutions of Sandia, LLC (NTESS).
 # Under the terms of Contract DE-NA0003525 with NTESS, the U.S. Government retains
 # certain rights in this software.
+import sys
 from collections import defaultdict
 from itertools import chain
 
@@ -77,6 +78,13 @@ class DiscoverSubcircuits(UsedQubitIndicesVisitor):
         # prepare_all and measure_all.  In the future, we presumably will employ the used
         # qubit functionality of the superclass, and separately report the measured
         # qubits.  But we do not support partial measurements yet.
+        for reg in circuit.fundamental_registers():
+            # Results are arrays with 2**size entries: beyond this they cannot
+            # even be indexed (and listing the qubits would never finish).
+            if int(reg.size) > sys.maxsize.bit_length():
+                raise JaqalError(
+                    f"Register {reg.name} is too large to execute: {reg.size} qubits"
+                )
         self.qubits = list(chain.from_iterable(circuit.fundamental_registers()))
         super().visit_Circuit(circuit, context=context)
 
